@@ -20,6 +20,7 @@ import (
 //	2: 1 package, 2 L2 cache groups of 2 cores x 2 threads    (8 CPUs)
 //	3: hybrid: 2 P-cores x 2 threads + 4 E-cores in 2 clusters (8 CPUs)
 //	4: 1 package x 4 cores x 2 threads, two base-frequency bins (8 CPUs)
+//	6: 1 package x 3 cores x 2 threads with one thread offline (6 CPUs)
 //	5: 1 package, 8 single-thread cores, 4 L2 cache groups of 2 cores (8 CPUs):
 //	   requests that take an idle group and then exactly the rest of a used one
 func verifTopology(k int) (sysfs.System, int) {
@@ -54,6 +55,10 @@ func verifTopology(k int) (sysfs.System, int) {
 		for id := 0; id < 8; id++ {
 			cpus = append(cpus, sysfs.VerifCPU{ID: id, Core: id, Cluster: id / 2, Kind: P, EPP: sysfs.EPPUnknown, CacheGroup: id / 2})
 		}
+	case 6: // 1 package x 3 cores x 2 threads, CPU 5 offline (its sibling 4 stays usable)
+		for id := 0; id < 6; id++ {
+			cpus = append(cpus, sysfs.VerifCPU{ID: id, Core: id / 2, Cluster: id / 2, Kind: P, EPP: sysfs.EPPUnknown, CacheGroup: -1, Offline: id == 5})
+		}
 	default:
 		for id := 0; id < 8; id++ {
 			f := uint64(2000000)
@@ -69,7 +74,7 @@ func verifTopology(k int) (sysfs.System, int) {
 func verifPickTopology() (sysfs.System, int) {
 	mask := verifParam("topoMask", 1)
 	var enabled []int
-	for k := 0; k < 6; k++ {
+	for k := 0; k < 7; k++ {
 		if mask&(1<<uint(k)) != 0 {
 			enabled = append(enabled, k)
 		}
@@ -92,6 +97,7 @@ func VerifC08Allocate() {
 	sys, n := verifPickTopology()
 	ca := NewCPUAllocator(sys)
 	from := verifNondetCPUSet("from", n)
+	verifAssume(from.Intersection(sys.Offlined()).IsEmpty()) // candidates are online CPUs
 	from0 := from.Clone()
 	cnt := verifNondetInt("cnt")
 	verifAssume(verifAnd(cnt >= 0, cnt <= n+1))
@@ -116,6 +122,7 @@ func VerifC08Release() {
 	sys, n := verifPickTopology()
 	ca := NewCPUAllocator(sys)
 	from := verifNondetCPUSet("from", n)
+	verifAssume(from.Intersection(sys.Offlined()).IsEmpty()) // candidates are online CPUs
 	from0 := from.Clone()
 	cnt := verifNondetInt("cnt")
 	verifAssume(verifAnd(cnt >= 0, cnt <= from0.Size()))
@@ -132,6 +139,7 @@ func VerifC08Deterministic() {
 	sys, n := verifPickTopology()
 	ca1, ca2 := NewCPUAllocator(sys), NewCPUAllocator(sys)
 	from1 := verifNondetCPUSet("from", n)
+	verifAssume(from1.Intersection(sys.Offlined()).IsEmpty()) // candidates are online CPUs
 	from2 := from1.Clone()
 	cnt := verifNondetInt("cnt")
 	verifAssume(verifAnd(cnt >= 0, cnt <= n+1))
